@@ -21,7 +21,7 @@ from ..world import World, raw_http
 
 ID = "C13"
 RULE = (
-    "Request targets from an adversarial path grammar (real collection names, '..', '.', empty segment, %2e%2e, %2E., ..%2f, %2f, %5c.., '..;x', 300-char segment, 'etc', names of sentinel "
+    "Request targets from an adversarial path grammar (real collection names, '..', '.', empty segment, %2e%2e, %2E., ..%2f, %2f, %5c.., doubly encoded ..%252f and %252e%252e, several encoded climbs inside one segment, '..;x', 300-char segment, 'etc', names of sentinel "
     "directories that exist next to the data directory - including data.bak, whose name starts with the root's own name - and '.git'; 1-8 segments after a real base path, optional trailing slash, "
     "optional route prefix, targets without leading '/') x method {GET, HEAD, PUT, POST, DELETE, MKCOL, extended MKCOL, MKCALENDAR, PROPFIND Depth 0/1, PROPPATCH, REPORT multiget (hrefs from the same "
     "grammar), sync, query, OPTIONS}. Engine A: raw bytes to a real listening `python -m xandikos`-equivalent process started through a launcher that installs an audit hook; engine B: the WSGI callable "
@@ -32,15 +32,32 @@ RULE = (
     "the same server; 5xx with unchanged tree: recorded, not a violation). Non-trivial: a target whose naive join with the data root leaves it at some prefix; distinct by (method, target)."
 )
 
-SEGMENTS = ["..", "..", "..", ".", "", "%2e%2e", "%2E.", ".%2e", "..%2f", "..%2f..", "%2f", "%5c..", "..;x", "A" * 300, "etc", "secret", "victim", "esc", "data.bak", "data2", "data", ".git", "user", "calendars", "calendar", "x.ics", "newcol", "a.txt", "tmp"]
+SEGMENTS = ["..", "..", "..", ".", "", "%2e%2e", "%2E.", ".%2e", "..%2f", "..%2f..", "%2f", "%5c..", "..;x", "..%252f", "%252e%252e", "..%252F..%252F..%252F..%252F..%252Fdd.ics", "..%2f..%2f..%2f..%2f..%2fsd.ics", "%252e%252e%252fx", "A" * 300, "etc", "secret", "victim", "esc", "data.bak", "data2", "data", ".git", "user", "calendars", "calendar", "x.ics", "newcol", "a.txt", "tmp"]
 BASES = ["", "/user", "/user/calendars", "/user/calendars/calendar", "/user/contacts/addressbook", "/user/calendars/calendar/ev.ics"]
 METHODS = ["GET", "HEAD", "PUT", "POST", "DELETE", "MKCOL", "MKCOL-ext", "MKCALENDAR", "PROPFIND0", "PROPFIND1", "PROPPATCH", "REPORT-multiget", "REPORT-sync", "REPORT-query", "OPTIONS"]
 
 ICS = b"BEGIN:VCALENDAR\r\nVERSION:2.0\r\nPRODID:-//xv//c13//EN\r\nBEGIN:VEVENT\r\nUID:%s\r\nDTSTART:20200101T000000Z\r\nSUMMARY:c13\r\nEND:VEVENT\r\nEND:VCALENDAR\r\n"
 
 
+TERMINALS = [
+    "..%252F..%252F..%252F..%252F..%252Fdd.ics",
+    "..%252f..%252f..%252f..%252f..%252fdata.bak%252fy.ics",
+    "..%2f..%2f..%2f..%2f..%2fsd.ics",
+    "%2e%2e%2f%2e%2e%2f%2e%2e%2f%2e%2e%2f%2e%2e%2fx.ics",
+    "%252e%252e%252f%252e%252e%252f%252e%252e%252f%252e%252e%252f%252e%252e%252fz.ics",
+    "..%255c..%255c..%255cw.ics",
+    "..%252F..%252F..%252F..%252F..%252Fnewcol",
+    "..",
+    "%2e%2e",
+]
+
+
 @st.composite
 def target(draw, prefix):
+    if draw(st.integers(0, 3)) == 0:
+        # a single dangerous last segment directly below an existing collection
+        base = draw(st.sampled_from(["/user/calendars/calendar", "/user/contacts/addressbook", "/user/calendars", "/user"]))
+        return prefix.rstrip("/") + base + "/" + draw(st.sampled_from(TERMINALS))
     base = draw(st.sampled_from(BASES))
     n = draw(st.integers(1, 8))
     segs = [draw(st.sampled_from(SEGMENTS)) for _ in range(n)]
@@ -244,10 +261,9 @@ class RealServer:
         self.scratch = make_scratch()
         self.data = os.path.join(self.scratch, "data")
         self.log = os.path.join(self.scratch, "audit.log")
-        s = socket.socket()
-        s.bind(("127.0.0.1", 0))
-        self.port = s.getsockname()[1]
-        s.close()
+        from .c18 import free_port
+
+        self.port = free_port()
         envv = dict(os.environ, XV_AUDIT_LOG=self.log, XV_REPO=env.REPO, HOME=os.path.join(self.scratch, "home"), PYTHONDONTWRITEBYTECODE="1", TZ="UTC")
         envv.pop("EMAIL", None)
         self.proc = subprocess.Popen(
